@@ -120,8 +120,7 @@ def one_case(ctx, codes, pos, alleles, samples, vcs, scs, workers, work, rng, la
         if model != mgot:
             ctx.disagree("plink.convert genotype arrays differ from Model.Plink.convert", inp, model, mgot if mgot is not None else got)
         # the real slice list is the model's (C11 tie, repeated here because the proof uses it)
-        import types
-        z = types.SimpleNamespace(chunks=(cs,), shape=(m,))
+        z = common.zarr_like((m, max(1, n), 2), (cs, max(1, scs or n or 1), 2))
         real_sl = [[int(a), int(b)] for a, b in core.chunk_aligned_slices(z, nslices)]
         if real_sl != sl:
             ctx.disagree("chunk_aligned_slices differs from model", inp, sl, real_sl)
